@@ -240,13 +240,14 @@ Proof96 == Ramp(9, 96)
 \* opaque Micheline byte strings (concretised by the harness with fixed, independently known encodings)
 VInt1 == <<0, 1>>                                   \* 1
 VPair == <<7, 7, 0, 1, 3, 11>>                      \* Pair 1 Unit
+VIntM64 == <<0, 192, 1>>                            \* -64: the first magnitude that no longer fits the 6 bits of the head byte
 VTicket == <<1, 0, 0, 0, 6, 84, 105, 99, 107, 101, 116>>    \* "Ticket"
 TString == <<3, 104>>                               \* string
 TInt == <<3, 91>>                                   \* int
 Code0 == <<2, 0, 0, 0, 0>>                          \* {}
 Code1 == <<2, 0, 0, 0, 23,  5, 0, 3, 108,  5, 1, 3, 108,  5, 2, 2, 0, 0, 0, 8,  3, 23,  5, 61, 3, 109,  3, 66>>
                                                     \* { parameter unit ; storage unit ; code { CDR ; NIL operation ; PAIR } }
-Values == {MichUnit, VInt1, VPair}
+Values == {MichUnit, VInt1, VPair, VIntM64}
 EpSave == <<115, 97, 118, 101>>                     \* save
 EpLong == <<97, 98, 99, 100, 101, 102, 103, 104, 105, 106, 107, 108, 109, 110, 111, 112, 113, 114, 115, 116, 117, 118, 119, 120, 121, 122, 48, 49, 50, 51, 52>>  \* 31 characters
 Entrypoints == {Reserved[k] : k \in 1..Len(Reserved)} \cup {EpSave, EpLong}
@@ -258,6 +259,7 @@ Msg0 == <<>>
 Msg1 == Ramp(3, 5)
 Msg2 == <<255>>
 TextMsg1 == <<109, 115, 103, 49>>                   \* msg1
+TextHex == <<99, 97, 102, 101>>                     \* cafe: a text that happens to read as hexadecimal is still text
 
 HdrContents == {<<"delegation">> \o Hdr(k, HA, a, b, c, d) \o <<<<"none">>>> : k \in 0..3, a \in HdrIdx, b \in HdrIdx, c \in HdrIdx, d \in HdrIdx}
 TxContents == {<<"transaction">> \o h \o <<IntTab[a], d, p>> : h \in TxHdrs, a \in AmtIdx, d \in Dests, p \in Params}
@@ -272,7 +274,7 @@ MiscContents ==
           a \in AmtIdx \ {1}, d \in Implicits \cup {<<"originated", HB>>}, e \in {EpDefault, EpSave}}
   \cup {<<"smart_rollup_add_messages">> \o h \o <<m>> : h \in {H1, H2}, m \in {<<>>, <<Msg1>>, <<Msg1, Msg2>>, <<Msg0>>, <<Msg0, Msg1>>}}
   \cup {<<"smart_rollup_execute_outbox_message">> \o h \o <<r, C32, pr>> : h \in {H1, H2}, r \in {HA, HZ}, pr \in {<<>>, Ramp(11, 40)}}
-  \cup {<<"failing_noop", m>> : m \in {<<>>, TextMsg1, EpLong}}
+  \cup {<<"failing_noop", m>> : m \in {<<>>, TextMsg1, TextHex, EpLong}}
   \cup {<<"activate_account", p, HB>> : p \in {HA, HZ}}
 MixPool == {
    <<"reveal">> \o H1 \o <<Pk(0), <<"none">>>>,
